@@ -163,16 +163,47 @@ def wait_sites(F, R):
                         lock_ok = lockvars[a0['id']]['t'].startswith('std::unique_lock')
                     fields = []
                     disj = []
+                    expanded = []
                     if lam is not None:
                         rets = [x for x in walk(lam['body']) if x.get('k') == 'Return']
                         for rt in rets:
-                            disj += split_or(rt.get('value'))
-                        for x in walk(lam['body']):
+                            ex = expand_pred(rt.get('value'), F, cls, fn)
+                            expanded.append(ex)
+                            disj += split_or(ex)
+                        for x in [y for ex in expanded for y in walk(ex)] + list(walk(lam['body'])):
                             if x.get('k') == 'Member' and x.get('dk') == 'field' and x.get('name') in g:
                                 if x['name'] not in fields:
                                     fields.append(x['name'])
                     out.append({'cls': cls, 'fn': fn, 'cv': cv[-1] if cv else None, 'call': n, 'lambda': lam, 'lock_ok': lock_ok,
-                                'fields': fields, 'disjuncts': disj, 'line': n.get('l'), 'variant': n.get('fn')})
+                                'fields': fields, 'disjuncts': disj, 'line': n.get('l'), 'variant': n.get('fn'), 'expanded': expanded})
+    return out
+
+
+def expand_pred(e, F, cls, fn, depth=0):
+    """a wait predicate with single-assignment locals propagated and calls to helper methods of the same class replaced by
+    the expression they return (one return statement, up to 3 levels)"""
+    e = deep_resolve(e, fn)
+    if not isinstance(e, dict) or depth > 3:
+        return e
+    if e.get('k') == 'Call' and e.get('ck') == 'member' and e.get('clsq') == cls and e.get('calleeInRoot') and not e.get('args'):
+        o = strip_all_casts(e.get('obj'))
+        if isinstance(o, dict) and o.get('k') == 'This':
+            cands = [f for f in F.functions.get(e['callee'], []) if f['sig'] == e.get('csig')]
+            if len(cands) == 1:
+                rets = [r for r in walk(cands[0]['body'], into_lambda=False) if r.get('k') == 'Return' and r.get('value') is not None]
+                if len(rets) == 1:
+                    inner = expand_pred(rets[0]['value'], F, cls, cands[0], depth + 1)
+                    if cands[0].get('ret') and isinstance(inner, dict) and inner.get('t') != cands[0]['ret']:
+                        inner = {'k': 'Cast', 'style': 'decl', 'cast': 'Conversion', 't': cands[0]['ret'], 'from': inner.get('t'), 'sub': inner, 'l': e.get('l')}
+                    return inner
+    out = {}
+    for k, v in e.items():
+        if isinstance(v, dict):
+            out[k] = expand_pred(v, F, cls, fn, depth)
+        elif isinstance(v, list):
+            out[k] = [expand_pred(i, F, cls, fn, depth) if isinstance(i, dict) else i for i in v]
+        else:
+            out[k] = v
     return out
 
 
@@ -249,6 +280,34 @@ def K2s(F, rep, R, ws):
                '%d overloads of %s::%s wait on %s with the same predicate' % (len(lst), short(cls), simple, cv) if ok else
                'overloads of %s::%s wait on %s with different predicates: %s - one of them is wrong' %
                (short(cls), simple, cv, '  vs  '.join('[%s] (line %s)' % (p_, v[0]['line']) for p_, v in preds.items())), nontrivial=True)
+
+
+UNSIGNED = ('unsigned', 'size_t')
+
+
+def K2u(F, rep, R, ws):
+    """the fill level a producer waits on is position arithmetic that can be negative (the get position runs ahead of the put position
+    when an object larger than the buffered data is skipped): it must not be converted to an unsigned type before the comparison"""
+    for w in ws:
+        diffs = []
+        for ex in w.get('expanded', []):
+            for x in walk(ex):
+                if x.get('k') == 'Cast' and any(u in (x.get('t') or '') for u in UNSIGNED):
+                    inner = [y for y in walk(x['sub']) if (y.get('k') == 'Bin' and y.get('op') == '-') or
+                             (y.get('k') == 'Call' and y.get('ck') == 'operator' and y.get('op') == '-')]
+                    names = {z.get('name') for y in inner for z in walk(y) if z.get('k') == 'Member'}
+                    if inner and {'m_tellp', 'm_tellg'} <= names:
+                        diffs.append(x)
+        if not any(f in ('m_tellp',) for f in w['fields']) or not any(f == 'm_tellg' for f in w['fields']):
+            continue
+        if w['fn']['simple'] != 'write':
+            continue
+        rep.count('K2u')
+        rep.ob('K2u', '%s|%s|%s' % (short(w['fn']['name']), w['cv'], w['fn']['sig'][:40]), not diffs, rep.fn_site(w['fn'], w['line']),
+               '%s: the fill level m_tellp - m_tellg is compared as a signed quantity' % short(w['fn']['name']) if not diffs else
+               '%s: the fill level m_tellp - m_tellg is converted to %s before it is compared with the capacity: when the get position is ahead '
+               '(an unknown object larger than the buffered data was skipped) it wraps and the producer is never admitted again' %
+               (short(w['fn']['name']), diffs[0].get('t')), nontrivial=True)
 
 
 def K2(F, rep, R, classes=None):
@@ -913,8 +972,11 @@ def deep_resolve(e, fn, depth=0):
     x = e
     if e.get('k') == 'Ref' and e.get('dk') == 'local' and e.get('id') in t:
         init = t[e['id']]
-        # scalars, pointers and iterators only: an object copy is a different thing than its source
-        return deep_resolve(init, fn, depth + 1)
+        r = deep_resolve(init, fn, depth + 1)
+        # the declared type of the local is a conversion of its initialiser (std::size_t fill = a - b;)
+        if isinstance(r, dict) and e.get('t') and r.get('t') and e['t'] != r['t'] and e['t'].replace('const ', '') != r['t'].replace('const ', ''):
+            return {'k': 'Cast', 'style': 'decl', 'cast': 'Conversion', 't': e['t'].replace('const ', ''), 'from': r.get('t'), 'sub': r, 'l': e.get('l')}
+        return r
     out = {}
     for k, v in e.items():
         if isinstance(v, dict):
